@@ -11,11 +11,15 @@ Hash(s, a) == IF a > Len(s) THEN 0 ELSE (s[a][1] * 7 + s[a][2] * 13 + a * 3 + 5 
 Small == UNION {[1..n -> Grid(G1)] : n \in 0..L1}
 Thin == {s \in [1..L2 -> Grid(G2)] : Hash(s, 1) % M2 = 0 /\ NoRepeat(s)}
 Lines == [kind : {"line"}, curve : Small \cup Thin, tol2 : {0, 3, 7}]
+(* the same property at other magnitudes: the harness multiplies coordinates and tolerance by 2^sh (exact in binary
+   floating point) and divides the result again, so the oracle is unchanged while any absolute threshold inside the
+   implementation meets coordinates of size 2^-10 .. 2^30 *)
+Scaled == [kind : {"line"}, curve : {s \in Thin : Hash(s, 1) % (3 * M2) = 0}, tol2 : {3, 7}, sh : {-10, 30}]
 (* closed rings and multi-geometries built from the small curves *)
 Close(s) == IF Len(s) = 0 THEN s ELSE Append(s, s[1])
 Rings == {Close(s) : s \in {t \in [1..3 -> Grid(G1)] : NoRepeat(t)} \cup {t \in [1..4 -> Grid(G1)] : Hash(t, 1) % 5 = 0 /\ NoRepeat(t)}}
 Polys == [kind : {"poly"}, rings : {<<r>> : r \in Rings} \cup {<<r, <<>>>> : r \in {x \in Rings : Hash(x, 1) % 7 = 0}}, tol2 : {0, 3}]
 Multis == [kind : {"multi"}, lines : {<<a, b>> : a \in {x \in Small : Hash(x, 1) % 11 = 0}, b \in {x \in Small : Hash(x, 1) % 13 = 1}}, tol2 : {3}]
-GenInit == c \in Lines \cup Polys \cup Multis /\ PrintT(ToJson(c))
+GenInit == c \in Lines \cup Scaled \cup Polys \cup Multis /\ PrintT(ToJson(c))
 GenSpec == GenInit /\ [][UNCHANGED c]_c
 =============================================================================
